@@ -198,6 +198,10 @@ pub fn run(a: &Args) {
         (1..=8u64).chain((0..a.n.saturating_sub(8)).map(|_| rng.next())).collect()
     };
     for chunk in subs.chunks(4) {
+        if crate::l2::timeouts() >= crate::l2::ENOUGH_TIMEOUTS {
+            sink.count("stopped-early-after-timeouts");
+            break;
+        }
         let hs: Vec<_> = chunk.iter().map(|&s| std::thread::spawn(move || (s, scenario(s)))).collect();
         for h in hs {
             match h.join() {
